@@ -14,7 +14,11 @@ RT_SRCS := rt.cpp rt_sync.cpp rt_heap.cpp rt_mem.cpp
 RT_OBJS := $(RT_SRCS:%.cpp=$(BUILD)/rt/%.o)
 
 .PHONY: setup clean
-setup: $(RT_OBJS) $(BUILD)/rt/main.o
+setup: $(RT_OBJS) $(BUILD)/rt/main.o $(BUILD)/rt/merge_hashes
+
+$(BUILD)/rt/merge_hashes: sim/merge_hashes.cpp
+	@mkdir -p $(BUILD)/rt
+	g++ -O2 -o $@ $<
 
 $(BUILD)/rt/%.o: sim/%.cpp sim/*.h
 	@mkdir -p $(BUILD)/rt
